@@ -210,6 +210,10 @@ pub fn vasync_block() -> (r: AsyncBlock) { unimplemented!() }
 // ===================================================================== handle.rs: commands are sent EAGERLY
 //@extract_type file=actix-server/src/handle.rs item="struct ServerHandle"
 impl ServerHandle {
+//@extract file=actix-server/src/handle.rs item="impl ServerHandle / fn new" ret=r props=C06 name=handle::new
+//@spec
+    ensures r.cmd_tx == cmd_tx,
+//@end
 //@extract file=actix-server/src/handle.rs item="impl ServerHandle / fn worker_faulted" props=C08 name=handle::worker_faulted
 //@spec
     requires true,
@@ -322,9 +326,11 @@ pub struct ServerBuilder {
     pub sockets: Vec<(usize, String, MioListener)>,
     pub exit: bool,
     pub listen_os_signals: bool,
+    pub cmd_tx: UnboundedSender<ServerCommand>,
     pub cmd_rx: UnboundedReceiver<ServerCommand>,
     pub worker_config: ServerWorkerConfig,
 }
+impl<T> Clone for UnboundedSender<T> { #[verifier::external_body] fn clone(&self) -> (r: Self) ensures r.id() == self.id() { unimplemented!() } }
 impl ServerBuilder {
     /// what the ServerBuilder guarantees when the server is run (unit server_misc: `wf`): listener k carries token k and
     /// was bound under it; at most 512 workers (more make `Availability` panic: documented)
@@ -494,6 +500,45 @@ let mut r9_out: Vec<BoxedFactory> = Vec::new(); let mut r9_n: usize = 0; while r
             r9_found ==> r9_k < self.worker_handles@.len() && self.worker_handles@[r9_k as int].idx == idx,
             !r9_found ==> forall|k: int| 0 <= k < r9_k ==> (#[trigger] self.worker_handles@[k]).idx != idx,
         decreases self.worker_handles@.len() - r9_k + (if r9_found { 0int } else { 1int }),
+//@end
+}
+
+
+// ===================================================================== Server: the user-facing future (C06)
+/// futures BoxFuture of `ServerInner::run(builder)` (Box::pin of the async fn's future)
+#[verifier::external_body]
+#[verifier::reject_recursive_types(T)]
+pub struct BoxFuture<'a, T> { _p: core::marker::PhantomData<&'a T> }
+impl<'a, T> BoxFuture<'a, T> {
+    pub uninterp spec fn next_poll(&self) -> Poll<T>;
+    #[verifier::external_body]
+    pub fn poll(&mut self, cx: &mut Context<'_>) -> (r: Poll<T>) ensures r == old(self).next_poll() { unimplemented!() }
+}
+pub struct Box { }
+impl Box {
+    #[verifier::external_body]
+    pub fn pin<F: Future>(f: F) -> (r: BoxFuture<'static, F::Output>) { unimplemented!() }
+}
+impl Pin {
+    /// `Pin::into_inner(self)` on a `Pin<&mut Self>` that R4 has already turned into `&mut self`: the identity
+    pub fn into_inner<T>(t: T) -> (r: T) ensures r == t { t }
+}
+//@check_struct file=actix-server/src/server.rs name=Server fields=handle,fut
+pub struct Server { pub handle: ServerHandle, pub fut: BoxFuture<'static, io::Result<()>> }
+impl Clone for ServerHandle { #[verifier::external_body] fn clone(&self) -> (r: ServerHandle) ensures r.cmd_tx.id() == self.cmd_tx.id() { unimplemented!() } }
+impl Server {
+//@extract file=actix-server/src/server.rs item="impl Server / fn new" ret=r props=C06 name=server::Server::new
+//@spec
+    requires builder.ready(),     // established by ServerBuilder::run from the builder's own invariant (unit server_misc)
+    ensures r.handle.cmd_tx.id() == builder.cmd_tx.id(),   // [C06] commands sent through the handle reach THIS server's command loop
+//@end
+//@extract file=actix-server/src/server.rs item="impl Server / fn handle" ret=r props=C06 name=server::Server::handle
+//@spec
+    ensures r.cmd_tx.id() == self.handle.cmd_tx.id(),
+//@end
+//@extract file=actix-server/src/server.rs item="impl Future for Server / fn poll" ret=r props=C06 name=server::Server::poll
+//@spec
+    ensures r == old(self).fut.next_poll(),   // [C06] the Server future resolves exactly when the command loop's future does, with its result
 //@end
 }
 
